@@ -13,7 +13,10 @@ Inductive case :=
 | CCodec (t : tree) (ps : list (option N)) (dels : list N) (back : tree)
          (* t in the order MarshalJSON emitted "revs"; its "parents"/"deleted"; UnmarshalJSON of those bytes *)
 | CDecode (e : enc) (res : tree)                          (* UnmarshalJSON of a hand-built revTreeList *)
-| CDb (allowC : bool) (limit : N) (steps : list (op * result * doc)).
+| CDb (allowC : bool) (limit : N) (steps : list (op * result * doc))
+| CBody (allowC : bool) (limit : N) (steps : list (op * N))   (* requests in commit order, each with the id of the body it carries *)
+        (cur : option revid) (curBody : option N)           (* stored current revision; body id read back (None: tombstone) *)
+        (leafBodies : list (revid * N)).                    (* every live leaf with the body id read back after a revision-cache flush *)
 
 Definition ids_sub (a b : list revid) : bool := forallb (fun i => existsb (revid_eqb i) b) a.
 Definition ids_eqb (a b : list revid) : bool :=
@@ -43,6 +46,37 @@ Fixpoint run_db (allowC : bool) (limit : N) (d : doc) (steps : list (op * result
       result_eqb r r' && doc_eqb obs d' && run_db allowC limit d' rest
   end.
 
+(* bodies: a revision's body is the one carried by the request that added it as its newest revision *)
+Fixpoint body_of (bs : list (revid * N)) (i : revid) : option N :=
+  match bs with
+  | [] => None
+  | (j, b) :: r => if revid_eqb j i then Some b else body_of r i
+  end.
+
+Fixpoint run_bodies (allowC : bool) (limit : N) (d : doc) (bs : list (revid * N)) (steps : list (op * N))
+  : doc * list (revid * N) :=
+  match steps with
+  | [] => (d, bs)
+  | (o, b) :: rest =>
+      let (d', res) := step code_fixed allowC limit d o in
+      let bs' := match res, o with
+                 | ROk, OPush (h :: _) _ _ => (h, b) :: bs
+                 | ROk, OPut _ _ newid => (newid, b) :: bs
+                 | _, _ => bs
+                 end in
+      run_bodies allowC limit d' bs' rest
+  end.
+
+Definition check_bodies (allowC : bool) (limit : N) (steps : list (op * N)) (cur : option revid)
+           (curBody : option N) (leafBodies : list (revid * N)) : bool :=
+  let (d, bs) := run_bodies allowC limit empty_doc [] steps in
+  let lv := filter (fun r => negb (rdel r)) (leaves (dtree d)) in
+  opt_id_eqb cur (dcur d)
+  && (if ddel d then true
+      else match dcur d with Some w => option_eqb N.eqb curBody (body_of bs w) | None => false end)
+  && (N.of_nat (length lv) =? N.of_nat (length leafBodies))
+  && forallb (fun r => option_eqb N.eqb (body_of leafBodies (rid r)) (body_of bs (rid r))) lv.
+
 Definition check (c : case) : bool :=
   match c with
   | CParse s r => option_eqb pair_eqb (parse_revid s) r
@@ -70,6 +104,7 @@ Definition check (c : case) : bool :=
   | CDecode e res =>
       match decode e with Some t' => tree_eqb res t' | None => false end
   | CDb allowC limit steps => run_db allowC limit empty_doc steps
+  | CBody allowC limit steps cur curBody leafBodies => check_bodies allowC limit steps cur curBody leafBodies
   end.
 
 Definition mismatches (cs : list case) : list N := failing check cs.
